@@ -265,7 +265,10 @@ func c20Random(c *core.Ctx, k *core.Case) {
 	mode := r.Intn(3)     // 0 balanced, 1 fill-heavy, 2 churn near full
 	wbase := int64(0)
 	if rng > 1<<20 {
-		wbase = []int64{0, 3, 1 << 16, 1<<32 - 4, 1 << 32}[r.Intn(5)] % rng
+		wbase = []int64{0, 3, 1 << 16, 1<<32 - 4, 1 << 32, rng - 10, rng - 4, rng - 1}[r.Intn(8)] % rng
+		if wbase < 0 {
+			wbase = 0
+		}
 	}
 	for i := 0; i < n; i++ {
 		var o c20Op
@@ -295,6 +298,15 @@ func c20Random(c *core.Ctx, k *core.Case) {
 				b = a
 				if r.Bool() {
 					b = top
+				}
+			}
+			if r.Chance(1, 8) {
+				// negative starts, down to the bottom of int64
+				const bottom = -int64(^uint64(0)>>1) - 1
+				a = []int64{-1, -2, -3, -rng, -rng - 1, -rng + 1, -(1 << 31), -(1 << 62), bottom, bottom + 1}[r.Intn(10)]
+				b = a + int64(r.Intn(3))
+				if r.Bool() {
+					b = int64(r.Intn(5))
 				}
 			}
 			o = c20Op{1, a, b}
@@ -512,7 +524,7 @@ func init() {
 			u := u
 			us = append(us, core.Unit{Name: fmt.Sprintf("random-%02d", u), Weight: 2000, Run: func(c *core.Ctx) {
 				for i := 0; i < nr/16; i++ {
-					min := []int64{0, 1, 5, 100, 65533, 65535, 65536, 1<<31 - 2, 1 << 32, 1 << 62}[c.R.Intn(10)]
+					min := []int64{0, 1, 5, 100, 65533, 65535, 65536, 1<<31 - 2, 1 << 32, 1 << 62, -1, -5, -40, -65536, -(1 << 31), -(1 << 62)}[c.R.Intn(16)]
 					size := int64(c.R.Range(1, 64))
 					if c.R.Chance(1, 3) {
 						size = int64(c.R.Range(1, 8))
@@ -533,7 +545,10 @@ func init() {
 				// arithmetic on the width is where a 32-bit int shows
 				for i := 0; i < c.Pick(24, 400); i++ {
 					min := []int64{0, 0, 1, 5, 1 << 16}[c.R.Intn(5)]
-					width := []int64{1<<32 + 1, 1<<32 + 2, 1<<32 + 3, 1<<32 + 4, 1<<33 + 1, 1<<40 + 3, 1<<32 - 1, 1 << 32}[c.R.Intn(8)]
+					width := []int64{1<<32 + 1, 1<<32 + 2, 1<<32 + 3, 1<<32 + 4, 1<<33 + 1, 1<<40 + 3, 1<<32 - 1, 1 << 32, 1<<53 + 1, 1<<53 + 2, 1<<53 + 3, 1<<53 + 4, 1<<54 + 6, 1<<62 + 1, 1<<62 + 3}[c.R.Intn(15)]
+					if i%5 == 4 {
+						min = -[]int64{1, 7, 1 << 16, 1 << 31}[c.R.Intn(4)] // a range that straddles zero
+					}
 					k := &core.Case{Oracle: "random", Target: "uePolicyContainer.IDGenerator", I: []int64{min, min + width - 1, int64(c.R.Uint64() >> 1), int64(c.R.Range(6, 60)), int64(i % 2)}}
 					c.Do(k)
 					c.NonTrivial(k.Hash())
